@@ -13,6 +13,8 @@ pub fn scenario(tier: &str) -> IncScn {
     roots.push(IncRoot { label: "cw20-lp(real pair)/standing-allowance".into(), lp_native: false, fee_kind: FeeKind::NativeDiff, prefix: 0, standing_allowance: true });
     // the pool behind the LP token pairs a cw20 token with a bank coin spelled exactly like the token's contract address
     roots.push(IncRoot { label: "cw20-lp(real pair: token + coin with twin-ids)/fresh".into(), lp_native: false, fee_kind: FeeKind::NativeDiff, prefix: 0, standing_allowance: false });
+    // amounts of an 18-decimals LP asset: every position exceeds 2^64 base units
+    roots.push(IncRoot { label: "native-lp/positions @1e18-units".into(), lp_native: true, fee_kind: FeeKind::NativeDiff, prefix: 1, standing_allowance: false });
     if tier != "quick" {
         roots.push(IncRoot { label: "cw20-lp(real pair)/reward-is-lp/flow".into(), lp_native: false, fee_kind: FeeKind::RewardIsLp, prefix: 2, standing_allowance: false });
         roots.push(IncRoot { label: "cw20-lp(real pair)/positions".into(), lp_native: false, fee_kind: FeeKind::NativeDiff, prefix: 1, standing_allowance: false });
